@@ -179,8 +179,10 @@ def run(prop, tier, replay=None, rep=None, finish=True):
     nrand = 6 if tier == "quick" else 150
     budget = 350 if tier == "quick" else 6000
     s0 = seed()
-    jobs = [(allplans[n], "random", (s0 * 1000003 + k) * 131 + zlib.crc32(n.encode()) % 97) for n in names for k in range(nrand)]
-    labels = [n for n in names for k in range(nrand)]
+    # contention plans get more schedules: lost wake-ups need a release inside the window of an aborted start
+    reps = {n: nrand * (5 if n.startswith(("tok", "stop-restart-tok", "kill-restart-tok")) else 1) for n in names}
+    jobs = [(allplans[n], "random", (s0 * 1000003 + k) * 131 + zlib.crc32(n.encode()) % 97) for n in names for k in range(reps[n])]
+    labels = [n for n in names for k in range(reps[n])]
     # fault sweep: the scheduler dies after k recorded events, for every k along a few base schedules
     nbase = 2 if tier == "quick" else 12
     for n in names:
